@@ -311,6 +311,30 @@ def pairs_deletions(model, rids, method):
     return out
 
 
+def pairs_gene_deletions(model, gids):
+    """single_gene_deletion (FBA), serial: the builder gets the wild-type content, the rule texts and the deleted gene — which reactions that
+    closes is decided in Lean (`GPRM.eval` on the rule parsed by `GPRM.fromString`)."""
+    from cobra.flux_analysis import single_gene_deletion
+    net = net_json(model)
+    rules = [r.gene_reaction_rule for r in model.reactions]
+    with capture() as got:
+        single_gene_deletion(model, gene_list=gids, method="fba", processes=1)
+    steps = got[-len(gids):]
+    lines = [{"net": net, "build": "geneDeletion", "rules": rules, "ko": [g]} for g in gids]
+    preds = predicted(lines)
+    left = list(range(len(gids)))
+    out, unpaired = [], []
+    for dump in steps:
+        k = next((k for k in left if not diff(preds[k], dump)), None)
+        if k is None:
+            unpaired.append(dump)
+        else:
+            left.remove(k)
+            out.append((lines[k], dump))
+    out += [(lines[k], dump) for k, dump in zip(left, unpaired)]
+    return out
+
+
 def compare(pairs, label: str, stats: dict, broken: list, case=None):
     """Run the builder lines through the Lean driver and diff with what was captured.  Mismatches go to `broken` (a correspondence
     that no longer holds is not by itself a violation: the caller searches for a failing input)."""
